@@ -103,7 +103,9 @@ class PythonCV2XLinkLayer(LinkLayer):
             if self.receive_callback:
                 try:
                     self.receive_callback(data)
-                except NotImplementedError as e:
+                except Exception as e:  # pylint: disable=broad-exception-caught
+                    # No received frame may terminate the receive loop: whatever the upper
+                    # layers raise on a malformed packet, the frame is discarded.
                     print("Error decoding packet: " + str(e))
 
     def stop(self) -> None:
